@@ -36,7 +36,7 @@ META = {
 }
 SIZES = {
     "quick": dict(pairs_per_group=8, explore_shards=10, gran="line", two=0, three=0, stress_threads=8, stress_rounds=30, cold=3, budget=4000),
-    "thorough": dict(pairs_per_group=30, explore_shards=14, gran="instr", two=150, three=40, stress_threads=16, stress_rounds=400, cold=24, budget=120000),
+    "thorough": dict(pairs_per_group=30, explore_shards=14, gran="instr", two=150, three=40, stress_threads=16, stress_rounds=200, cold=24, budget=60000),
 }
 _POOL = {}
 
@@ -254,7 +254,7 @@ def run_stress(shard, mon, S, p):
         r = random.Random(f"{env.seed()}/{shard['part']}/{t}")
         order = list(ids)
         start.wait()
-        for _ in range(sz["stress_rounds"]):
+        for _ in range(sz["stress_rounds"] // (8 if inject else 1)):
             r.shuffle(order)
             for i in order[: 60]:
                 out = calls.execute(S, p[i])
